@@ -320,3 +320,38 @@ def cf_inventory_bounds(ctx: Context, rule: str) -> None:
     ok = got == {'longitude', 'latitude'} and not derived
     ctx.check(rule, ok, "the bounds variables listed as geometry are the ones the coordinates name in their `bounds` attribute (whether or not their layout is usable)", fi,
               derived[0] if derived else fi.node, construct=f"bounds names from the attributes of {sorted(got)}; from derived arrays: {[norm_text(d) for d in derived] or 'none'}")
+
+
+def constant_name_lookups(ctx: Context, rule: str, members: Iterable[str]) -> None:
+    """`dataset[name]` with a fixed name answers for a bare *dimension* of that name too (xarray makes up a range
+    variable).  Applied to time coordinates: the SHOC simple format calls its time variable `time(time)`, so the
+    fixed name is a dimension name; a convention that expects it tests `name in dataset.variables` first.
+    (Depth coordinates `zc`, `z_centre` lie on dimensions `k`, `k_centre`: a KeyError is then the right answer.)"""
+    p = ctx.p
+    base = p.cls(BASE)
+    for member in members:
+        for fi in p.implementations(base, member):
+            flow = ctx.flow(fi)
+            for n in ast.walk(fi.node):
+                if not (isinstance(n, ast.Subscript) and isinstance(n.ctx, ast.Load) and norm_text(n.value).endswith('self.dataset')):
+                    continue
+                key = flow.resolve(n.slice)
+                fixed = isinstance(const_value(key, None), str)
+                if not fixed and isinstance(n.slice, ast.Name):
+                    # loop / comprehension variable over a literal tuple of names
+                    for d in flow.defs_of(n.slice):
+                        v = flow.resolve(d.value) if d.value is not None else None
+                        if d.kind in ('iter', 'comp') and isinstance(v, (ast.Tuple, ast.List)) and all(isinstance(const_value(e, None), str) for e in v.elts):
+                            fixed = True
+                if not fixed:
+                    continue
+                kt = norm_text(n.slice)
+                tested = any(t in (f"{kt} in self.dataset.variables", f"{kt} in self.dataset") and pol for t, pol in guards(fi, n))
+                # a comprehension filter `if name in self.dataset.variables`
+                for comp in ast.walk(fi.node):
+                    if isinstance(comp, (ast.GeneratorExp, ast.ListComp, ast.SetComp)) and any(x is n for x in ast.walk(comp.elt)):
+                        for g in comp.generators:
+                            if any(norm_text(i) in (f"{kt} in self.dataset.variables", f"{kt} in self.dataset") for i in g.ifs):
+                                tested = True
+                ctx.check(rule, tested, f"{member}: a variable expected under a fixed name is looked up only after `name in dataset.variables` (dataset[name] alone also answers for a bare dimension)", fi, n,
+                          construct=f"{fi.short}: {norm_text(n)} {'after a membership test' if tested else 'without a membership test'}")
